@@ -16,7 +16,7 @@ CHECKS = {
    "DESIGN.md §4 C01", "E1 simnet + E3 component"),
  "C02": ("exploration",
    "runtime monitor: offline history checker (unique ids) over simulated lossy/reordering/duplicating fabric + real-socket multi-thread stress (thorough: also under AddressSanitizer)",
-   "Hundreds to thousands of scenarios with 1-200 concurrent RPCs in both directions, bodies 0 B-4 MB (thorough 16 MB), random header maps/routes/statuses and randomised handler completion order under loss, duplication, reordering and black-outs; the merged call/return/start/finish history is checked for at-most-once, request integrity, response integrity and pairing. The same oracle also judges a real-UDP-socket stress on a 6-worker runtime with connection churn; in the thorough tier the whole check is repeated under an ASan+LSan build (quinn-udp / ring FFI paths).",
+   "Hundreds to thousands of scenarios with 1-200 concurrent RPCs in both directions, bodies 0 B-4 MB (thorough 16 MB), random header maps/routes/statuses and randomised handler completion order under loss, duplication, reordering and black-outs, plus look-alike request pairs (header maps that differ only in where names end and values begin, swapped values, one-byte differences); the merged call/return/start/finish history is checked for at-most-once, request integrity, response integrity and pairing. The same oracle also judges a real-UDP-socket stress on a 6-worker runtime with connection churn; in the thorough tier the whole check is repeated under an ASan+LSan build (quinn-udp / ring FFI paths).",
    "Body equality on (length, 64-bit hash); QUIC retransmission is exercised, not specified.",
    "DESIGN.md §4 C02", "E1 simnet"),
  "C03": ("exploration",
@@ -31,12 +31,12 @@ CHECKS = {
    "DESIGN.md §4 C04", "E1 simnet"),
  "C05": ("exploration",
    "runtime monitor over simulated mutual dials + convergence/agreement oracle",
-   "Real mutual dials between two Networks with seeded start offsets, asymmetric latency, loss and duplication; the oracle checks listings, event sequences, RPCs in both directions, that both sides kept the same physical connection, a quiet period, and cross-scenario determinism of the survivor. Component level: all 24 registration orders of the four connection objects of a mutual dial (two per side) through the real ActivePeers, plus the pure tie-break function over random identity pairs (antisymmetric, order-independent).",
+   "Real mutual dials between two Networks with seeded start offsets, asymmetric latency, loss and duplication; the oracle checks listings, event sequences, RPCs in both directions, that both sides kept the same physical connection, a quiet period, and cross-scenario determinism of the survivor. Component level: all 24 registration orders of the four connection objects of a mutual dial (two per side) through the real ActivePeers, plus the pure tie-break function over random identity pairs (antisymmetric, order-independent). Real-socket level: two Networks on UDP loopback and a 4-worker runtime dial each other simultaneously for 150 (thorough 600) rounds per scenario; listings, alternating events, RPCs both ways and a quiet window are judged per round (a wrong listing is a verdict only when unchanged for 5 s).",
    "Interleavings are those the seeded fabric produces (reported as distinct signatures), not an enumeration.",
    "DESIGN.md §4 C05", "E1 simnet"),
  "C06": ("exploration",
    "runtime monitor: hostile stream programmes from an admitted adversary + panic hook + honest-traffic oracle",
-   "An admitted adversary endpoint runs seeded programmes of malformed, truncated (swept offset), oversized, bincode-bomb, reset/stop/abandon, stream-flood, uni-stream, datagram and abrupt-close actions while honest RPCs run in both directions; monitors: process panic hook, is_closed(), C02 oracle and latency bound on honest RPCs, correctness of well-formed probes on fresh streams, and that every handler start attributed to the adversary equals a complete valid request it sent (independent parser).",
+   "An admitted adversary endpoint runs seeded programmes of malformed, truncated (swept offset), oversized, bincode-bomb, complete requests with hostile route/header text (1-4 byte UTF-8 swept across byte offsets) abandoned before/while/after the handler runs, reset/stop/abandon, stream-flood, uni-stream, datagram and abrupt-close actions while honest RPCs run in both directions; monitors: process panic hook, is_closed(), C02 oracle and latency bound on honest RPCs, correctness of well-formed probes on fresh streams, and that every handler start attributed to the adversary equals a complete valid request it sent (independent parser).",
    "Only inputs expressible through QUIC streams of an authenticated peer; memory exhaustion not judged.",
    "DESIGN.md §4 C06", "E1 simnet"),
  "C09": ("exploration",
@@ -61,7 +61,7 @@ CHECKS = {
    "DESIGN.md §4 C12", "E1 simnet"),
  "C13": ("exploration",
    "runtime monitor: dial attempts read off the fabric tap over minutes-hours of virtual time",
-   "Class A: all High peers black-holed, never-dial entries present; attempts (first Initial per connection) checked for who/rotation/backoff spacing/in-flight cap/keeps-dialing bounds. Class B: reachable High peers; bounded success, re-dial after loss, recovery after k failures, no dial while connected; explicit application dials are never counted against the background in-flight cap; multi-address peers rotate over their addresses.",
+   "Class A: all High peers black-holed, never-dial entries present; attempts (first Initial per connection) checked for who/rotation/backoff spacing/in-flight cap/keeps-dialing bounds. Class B: reachable High peers; bounded success, re-dial after loss, recovery after k failures, no dial while connected; explicit application dials are never counted against the background in-flight cap; multi-address peers rotate over their addresses; in both classes the node may hold connections to parties outside its High table (strangers, explicit dials, Allowed entries), which must change nothing.",
    "Liveness as the bounded-progress bounds of the statement; tick jitter included in bounds.",
    "DESIGN.md §4 C13", "E1 simnet"),
  "C14": ("exploration",
@@ -81,22 +81,22 @@ CHECKS = {
    "DESIGN.md §4 C07", "E3 component"),
  "C08": ("fault_enumeration",
    "runtime monitor: shutdown/tear-down instant swept (virtual time in simnet; 250 us grid in real-socket sub-processes) + panic hook + hang diagnosis",
-   "E1: simulated shutdown (by shutdown() or by dropping the last handle) of a network with a seeded in-flight mix at an instant swept in 100 us/1 ms steps; completes within shutdown_idle_timeout + 1 s, then closed/no peers/subscribe errs/weak refs dead/0 live service clones, subscriber gets LostPeer then end-of-stream, pending and later API calls return errors, remote peers drop the network, no panic. E2: sub-process trials on real UDP sockets and a 4-worker runtime; the runtime is dropped (handles alive / dropped first / during shutdown / after shutdown) on a 0-50 ms grid; no panic line, exit 0, drop(runtime) returns (a hang is a violation only when gdb shows a spinning connection-manager thread), address re-bindable at once after shutdown().",
+   "E1: simulated shutdown (by shutdown() or by dropping the last handle) of a network with a seeded in-flight mix at an instant swept in 100 us/1 ms steps, optionally together with a burst of 100-400 API calls that saturates the connection manager's mailbox; completes within shutdown_idle_timeout + 1 s, then closed/no peers/subscribe errs/weak refs dead/0 live service clones, subscriber gets LostPeer then end-of-stream, pending and later API calls return errors, remote peers drop the network, no panic. E2: sub-process trials on real UDP sockets and a 4-worker runtime; the runtime is dropped (handles alive / dropped first / during shutdown / after shutdown) on a 0-50 ms grid; no panic line, exit 0, drop(runtime) returns (a hang is a violation only when gdb shows a spinning connection-manager thread), address re-bindable at once after shutdown().",
    "Tear-down instants depend on OS scheduling; two defects found this way were repaired (fix: commits), one is a recorded finding.",
    "DESIGN.md §4 C08", "E1 simnet + E2 realnet sub-process"),
  "C16": ("exploration",
    "runtime monitor vs. reference route matcher and reference layer stacks",
-   "Route tables built by seeded programmes of route/add_rpc_service/route_layer/merge; every built table gets each pattern instantiated, near misses and odd strings; each leaf and layer counts invocations and stamps the response; compared with a reference matcher (static equality, catch-all = prefix + non-empty tail, empty tail don't-care) and reference layer stacks; no call-time panic.",
+   "Route tables built by seeded programmes of route/add_rpc_service/route_layer/merge; every fourth scenario builds its tables on 6 barrier-released threads before querying them; every built table gets each pattern instantiated, near misses and odd strings; each leaf and layer counts invocations and stamps the response; compared with a reference matcher (static equality, catch-all = prefix + non-empty tail, empty tail don't-care) and reference layer stacks; no call-time panic.",
    ":param segments not generated (not in the stated pattern language).",
    "DESIGN.md §4 C16", "E3 component"),
  "C17": ("exploration",
    "runtime monitor over generated programs: AST cross-check of generator output + compiled driver of generated clients/servers",
-   "Generator level: thousands of seeded definitions through anemo_build's generators; method->route maps read off the client and server ASTs must agree and lie under '/'+SERVICE_NAME+'/'. Execution level: batches of 12 generated services compiled by /verif/harness-codegen; every client method is called through Router::add_rpc_service with 8 scripted outcomes; handler log, results, statuses (code, message, headers), undecodable payloads and unknown routes are judged.",
+   "Generator level: thousands of seeded definitions through anemo_build's generators; method->route maps read off the client and server ASTs must agree and lie under '/'+SERVICE_NAME+'/'. Execution level: batches of 12 generated services compiled by /verif/harness-codegen; every client method is called through Router::add_rpc_service with 8 scripted outcomes and every shape of error Status (code only, message only incl. non-ASCII/5 kB/empty, headers only, both); handler log, results, statuses (code, message, headers), undecodable payloads and unknown routes are judged.",
    "Only identifier-shaped definitions; Attributes not varied.",
    "DESIGN.md §4 C17", "E4 codegen"),
  "C18": ("exploration",
    "runtime monitor: atomic per-peer gauge inside the wrapped service under a multi-threaded workload",
-   "InflightLimitLayer (limit 1..64, both modes) around a gauged service on a 4-worker runtime; tasks share clones and issue requests that finish, fail or are cancelled at random poll counts; the gauge's fetch_add return value is the observation (<= limit); refused requests never touch it; at quiescence gauges are 0 and a probe fills each peer with exactly `limit` never-finishing requests.",
+   "InflightLimitLayer (limit 1..64, both modes) around a gauged service on a 4-worker runtime; tasks share clones and issue requests that finish, fail or are cancelled at random poll counts; the gauge's fetch_add return value is the observation (<= limit); refused requests never touch it; fresh-peer rounds fire all tasks at a brand-new peer at once; at quiescence gauges are 0 and a hand-polled probe (logical steps, no clock) fills each peer with exactly `limit` never-finishing requests.",
    "Interleavings are those a 4-worker runtime produces.",
    "DESIGN.md §4 C18", "E3 component"),
  "C19": ("exploration",
@@ -106,7 +106,7 @@ CHECKS = {
    "DESIGN.md §4 C19", "E3 component"),
  "C20": ("exploration",
    "runtime monitor: three-way log comparison (authorizer, inner service, caller) under a multi-threaded workload",
-   "RequireAuthorizationLayer with a logging wrapper around the real AllowedPeers or a scripted authorizer, driven through 1-64 clones per task on a 4-worker runtime; per request id: invoked iff accepted, exactly once; accepted => inner's response and the inner saw the authorizer's mutation; refused => the authorizer's response byte for byte; allow-list verdict/status vs. reference.",
+   "RequireAuthorizationLayer with a logging wrapper around the real AllowedPeers or a scripted authorizer, ONE layered service whose clones are driven by 2-8 tasks (1-64 clones each) on a 4-worker runtime; per request id: invoked iff accepted, exactly once; accepted => inner's response and the inner saw the authorizer's mutation; refused => the authorizer's response byte for byte; allow-list verdict/status vs. reference.",
    "Response equality on (status, sorted headers, body length, 64-bit hash).",
    "DESIGN.md §4 C20", "E3 component"),
 }
